@@ -479,6 +479,12 @@ func (fv *FV) verifyFunc(c *Contract, d *declInfo) {
 			}
 		}
 	}
+	for _, gs := range c.GhostSets {
+		genv := &SpecEnv{fv: fv, names: fv.specNames, cur: exit, old: fv.oldState, pkg: d.pkg, tsub: fv.tsub}
+		nv := fv.evalSpec(genv, gs.Expr)
+		fv.heapGet(exit, ghostKey(gs.Name), "Int", types.Typ[types.Int])
+		exit.heap[ghostKey(gs.Name)] = Val{T: nv.T, S: "Int", Go: types.Typ[types.Int]}
+	}
 	penv := &SpecEnv{fv: fv, names: fv.specNames, cur: exit, old: fv.oldState, pkg: d.pkg, tsub: fv.tsub}
 	for _, e := range c.Ensures {
 		g := fv.evalSpecBool(penv, e.Expr)
@@ -633,6 +639,9 @@ func (fv *FV) checkFrame(exit *State, c *Contract, env *SpecEnv, d *declInfo) {
 		if !ok {
 			continue
 		}
+		if id, ok := sel.X.(SIdent); ok && id.Name == "ghost" {
+			continue
+		}
 		if id, ok := sel.X.(SIdent); ok {
 			if _, bound := env.names[id.Name]; !bound {
 				if tn := env.lookupType(id.Name); tn != nil {
@@ -690,6 +699,24 @@ func (fv *FV) checkFrame(exit *State, c *Contract, env *SpecEnv, d *declInfo) {
 			continue
 		}
 		label := shortName(k)
+		if strings.HasPrefix(k, "G:ghost.") {
+			declaredGhost := false
+			for _, gs := range c.GhostSets {
+				if ghostKey(gs.Name) == k {
+					declaredGhost = true
+				}
+			}
+			for _, a := range c.Assigns {
+				if sel, ok := a.(SSel); ok {
+					if id, ok := sel.X.(SIdent); ok && id.Name == "ghost" && ghostKey(sel.Sel) == k {
+						declaredGhost = true
+					}
+				}
+			}
+			if declaredGhost {
+				continue
+			}
+		}
 		if strings.HasPrefix(k, "G:") || k == "chan.closed" && false {
 			fv.oblige(exit, "assigns", label, fmt.Sprintf("(= %s %s)", cur.T, old.T), "global "+k+" not in assigns", d.decl.Pos())
 			continue
